@@ -233,10 +233,10 @@ def run(ctx):
     t0 = time.time()
     if ctx.quick:
         # one subscriber: every style; (min,max,mode) sampled over the three modes, incl. unlimited
-        solo = [(1, U, "all", 4, 3), (1, 2, "all", 4, 2), (2, 3, "behind", 4, 3), (1, 1, "recent", 4, 2),
-                (2, U, "recent", 4, 2), (1, 2, "behind", 4, 2)]
-        duo = [(1, 2, ["all"], '{"split"}', 0, 3, [0]), (1, 2, ["all"], '{"split"}', 1, 2, [0]),
-               (1, U, ["all", "recent"], '{"coro", "poll"}', 0, 2, [0]), (2, 2, ["behind"], '{"split", "block"}', 0, 2, [])]
+        solo = [(1, U, "all", 4, 3), (1, 2, "all", 4, 2), (2, 3, "behind", 4, 2), (1, 1, "recent", 4, 2),
+                (2, U, "recent", 3, 3)]
+        duo = [(1, 2, ["all"], '{"split"}', 1, 2, [0]), (1, U, ["all", "recent"], '{"coro", "poll"}', 0, 2, [0]),
+               (2, 2, ["behind"], '{"split", "block"}', 0, 2, [])]
         cap = 2500
     else:
         solo = []
